@@ -139,7 +139,8 @@ class C06(CacheProp):
             for d in s["done"]:
                 if d in waits:
                     drain(waits.pop(d))
-            if op[0] == "get" and op[1] in ref and op[1] not in dirty and op[1] not in during:
+            if (op[0] == "get" and op[1] in ref and op[1] not in dirty and op[1] not in during
+                    and not any(f[2] == op[1] for f in fifo)):     # nothing about the key is still pending
                 v, exp = ref[op[1]]
                 if exp == 0 or now < exp:
                     claims += 1
